@@ -29,6 +29,15 @@ class TopoProbe(Process):
         return self.cached
 
 
+def log_updater(value, update):
+    """keeps every update it receives (a falsy one too)"""
+    return tuple(value) + (update,)
+
+
+# the amounts of the 'log' form: falsy ones first
+LOG_AMOUNTS = [0, False, '', 0.0, 5, [], 7, None]
+
+
 class Extra(Process):
     """Declares extra variables next to the probed ones."""
     defaults = {'n': 0}
@@ -80,6 +89,9 @@ def build(case, given=None, extra=True, defaults_distinct=False, wrap=False):
     b.node_index = {n: i for i, n in enumerate(nodes)}
     b.initial = {n: 100 * (i + 1) for i, n in enumerate(nodes)}
     b.default = {n: (1000 + i if defaults_distinct else 0) for i, n in enumerate(nodes)}
+    if wrap == 'log':
+        b.initial = {n: () for n in nodes}
+        b.default = {n: () for n in nodes}
     b.given = set(nodes) if given is None else set(given)
     b.amount = {}
     schema, topo, update = {}, {}, {}
@@ -88,6 +100,8 @@ def build(case, given=None, extra=True, defaults_distinct=False, wrap=False):
         pvars = [x for x in variables if x['port'] == name]
 
         def leaf(x):
+            if wrap == 'log':
+                return {'_default': (), '_emit': True, '_updater': log_updater}
             return {'_default': b.default[tuple(x['node'])], '_emit': True}
         if kind == 'leaf':
             schema[name] = leaf(pvars[0])
@@ -98,9 +112,11 @@ def build(case, given=None, extra=True, defaults_distinct=False, wrap=False):
         elif kind == 'nested':
             schema[name] = {'n': {x['v'][1]: leaf(x) for x in pvars}}
         elif kind == 'glob':
-            schema[name] = {'*': {x['v'][1]: {'_default': 0, '_emit': True} for x in pvars}}
+            schema[name] = {'*': {x['v'][1]: (leaf(x) if wrap == 'log' else
+                                              {'_default': 0, '_emit': True}) for x in pvars}}
         elif kind == 'glob2':
-            schema[name] = {'*': {'pool': {'*': {x['v'][3]: {'_default': 0, '_emit': True}
+            schema[name] = {'*': {'pool': {'*': {x['v'][3]: (leaf(x) if wrap == 'log' else
+                                                             {'_default': 0, '_emit': True})
                                                  for x in pvars}}}}
         if port['t'] == 'omit':
             pass       # the topology does not mention the port
@@ -122,6 +138,8 @@ def build(case, given=None, extra=True, defaults_distinct=False, wrap=False):
         amt = 2 ** i
         if wrap == 'mixed0' and i == 0:
             amt = 0      # a plain, falsy amount first, updates naming their updater after
+        if wrap == 'log':
+            amt = LOG_AMOUNTS[i % len(LOG_AMOUNTS)]
         b.amount[(x['port'], tuple(x['v']))] = amt
         # wrap: the update names its updater itself (the form C08 describes)
         val = {'_value': amt, '_updater': 'accumulate'} \
